@@ -8,10 +8,19 @@
 //   bt    both audio ports (queue, phase, period, enable, flags), ap  both mailbox blocks (ready/data/disable per
 //         channel, semaphore, mask, signal flag), ev  every host callback of the slice in order
 //         ([0,l,r] audio frame, [1,c,0] receive-data handler of channel c, [2,0,0] semaphore handler)
-//   wr    every memory cell written during the slice with its final value
+//   dma   the DMA engine: enable word, active channel, the eight channels (configuration, y, z, cursors, counters,
+//         running flag, AHBM channel);  ah  the AHB bridge: busy flag, the three channels with their burst queues;
+//   xa    every external-memory callback of the slice in order [kind, addr_hi, addr_lo, value_hi, value_lo]
+//         (kinds as in dma_rec: 2/3 r8/w8, 4/5 r16/w16, 6/7 r32/w32); the callbacks are backed by a sparse byte map
+//         whose untouched bytes hold (7 * addr_lo + 13 * addr_hi + 3) & 0xFF
+//   wr    every memory cell written during the slice with its final value (DMA writes included)
 //   out   ok | unimpl | assert | oob
-// Between slices the host side acts through the public API (SendData, RecvData, SetSemaphore, ...): one
-// "Host" line each with arguments, result, callbacks and the complete observation afterwards.
+// Between slices the host side acts through the public API (SendData, RecvData, SetSemaphore, ..., the AHBM
+// accessors AHBMRead16/32, AHBMWrite16/32 -- 32-bit addresses / values are logged as [hi, lo] --, AHBMGet*,
+// DMAChan0Get*): one "Host" line each with arguments, result, callbacks and the complete observation afterwards.
+// Modes: (none) mixed programs; io: mailbox / audio / paging / DMA programs with host traffic; dma: only DMA programs
+// (kind 10: AHBM channel configuration and DMA channels programmed through the MMIO window, transfers DSP<->DSP,
+// DSP<->external, external<->external in 16-bit and double-word mode, irq 15 through the ICU); page; loops; step.
 // The same program is then run again on a fresh instance with a different slicing (and in one piece):
 // the specification has no fast-forward at all, so accepting all of them is C06.
 #include <map>
@@ -35,8 +44,23 @@ struct WriteLog : VerifMemObserver {
     }
 };
 
+// external memory behind the AHBM callbacks + the ordered log of the callbacks
+struct ExtMem {
+    std::map<u32, u8> mem;
+    std::vector<std::array<u32, 3>> xa;   // kind, address, value
+    static u8 fill(u32 a) { return (u8)(7 * (a & 0xFFFF) + 13 * (a >> 16) + 3); }
+    u8 get(u32 a) { auto it = mem.find(a); return it == mem.end() ? fill(a) : it->second; }
+    u8 r8(u32 a) { u8 v = get(a); xa.push_back({2, a, v}); return v; }
+    void w8(u32 a, u8 v) { xa.push_back({3, a, v}); mem[a] = v; }
+    u16 r16(u32 a) { u16 v = get(a) | ((u16)get(a + 1) << 8); xa.push_back({4, a, v}); return v; }
+    void w16(u32 a, u16 v) { xa.push_back({5, a, v}); mem[a] = (u8)v; mem[a + 1] = (u8)(v >> 8); }
+    u32 r32(u32 a) { u32 v = get(a) | ((u32)get(a + 1) << 8) | ((u32)get(a + 2) << 16) | ((u32)get(a + 3) << 24); xa.push_back({6, a, v}); return v; }
+    void w32(u32 a, u32 v) { xa.push_back({7, a, v}); mem[a] = (u8)v; mem[a + 1] = (u8)(v >> 8); mem[a + 2] = (u8)(v >> 16); mem[a + 3] = (u8)(v >> 24); }
+};
+
 struct Prog {
     std::map<u32, u16> words;
+    std::vector<u32> ext_hot;                 // external addresses the program works on (the host pokes around them)
     u32 at = 0;
     u16 mbase = 0x8000;                       // where the program believes the MMIO window is
     void org(u32 a) { at = a; }
@@ -70,6 +94,166 @@ struct Prog {
     void modr_inc(unsigned rn) { w(0x0080 | rn | (1 << 3)); }
 };
 
+// ---------------------------------------------------------------- DMA / AHBM program body (kind 10)
+struct DmaCfg { u32 sa = 0, da = 0; u16 z[3] = {0, 0, 0}, ss[3] = {0, 0, 0}, ds[3] = {0, 0, 0}; u16 sp = 0, dp = 0, dw = 0; };
+static unsigned dma_count(const DmaCfg& c) {
+    u32 n0 = c.z[0] ? c.z[0] : 1, n1 = c.z[1] ? c.z[1] : 1, n2 = c.z[2] ? c.z[2] : 1;
+    if (c.dw) n0 = (n0 + 1) / 2;
+    unsigned long long t = (unsigned long long)n0 * n1 * n2;
+    return t > 100000 ? 100000u : (unsigned)t;
+}
+// The generator's own walk over one side of a configuration (plain counters): used only to CHOOSE configurations whose
+// DSP-side cursors stay inside the array (word 0x20000 + cursor < 0x40000, known finding oob:dma_cursor otherwise) and
+// away from the stack; it is no oracle -- what the transfer does is judged by TLC against System.tla.
+static bool dsp_walk_ok(const DmaCfg& c, bool src) {
+    u32 n0 = c.z[0] ? c.z[0] : 1, n1 = c.z[1] ? c.z[1] : 1;
+    if (c.dw) n0 = (n0 + 1) / 2;
+    unsigned total = dma_count(c);
+    u32 cur = src ? c.sa : c.da;
+    const u16* st = src ? c.ss : c.ds;
+    for (unsigned k = 0; k < total; ++k) {
+        u32 lo = c.dw ? (cur & ~1u) : cur, hi = c.dw ? (cur | 1u) : cur;
+        if (lo >= 0x20000 || hi >= 0x20000) return false;
+        if (hi >= 0x0E00 && lo < 0x1200) return false;            // the stack lives around 0x1000-0x10FF
+        u32 i0 = k % n0, i1 = (k / n0) % n1;
+        cur += st[i0 + 1 < n0 ? 0 : (i1 + 1 < n1 ? 1 : 2)];
+    }
+    return true;
+}
+static u16 dma_size(vh::Rng& r, unsigned max) {
+    static const u16 e[] = {0, 1, 2, 3, 4, 5, 7, 8, 9, 15, 16, 17, 31, 32, 33};
+    for (;;) { u16 v = r.chance(2, 3) ? e[r.below(sizeof(e) / sizeof(e[0]))] : (u16)r.below(max + 1); if (v <= max) return v; }
+}
+static u16 dma_step(vh::Rng& r, bool tame) {
+    static const u16 small[] = {0, 1, 2, 3, 4, 5, 8}, big[] = {0x100, 0xFF, 0x8000, 0x7FFF, 0xFFFF, 0xFFFE, 0xFFFC};
+    unsigned c = tame ? 0 : r.below(12);
+    if (c < 9) return small[r.below(7)];
+    if (c < 11) return big[r.below(7)];
+    return r.u16();
+}
+static u32 ext_spot(vh::Rng& r) {
+    static const u32 e[] = {0x20000000, 0x20000100, 0, 0x10000, 0xFFFC, 0xFFFF0, 0x7FFFFFF0, 0x80000000, 0xFFFFFFE0, 0xFFFFFFF8, 0xFFFEFFF8, 0x1FFF8};
+    return (r.chance(3, 4) ? e[r.below(sizeof(e) / sizeof(e[0]))] : (u32)r.next()) & ~3u;
+}
+static u32 dsp_spot(vh::Rng& r) {
+    switch (r.below(6)) {
+    case 0: return 0x2000 + r.below(0x1000);
+    case 1: return 0xFFE0 + r.below(0x30);            // around the carry from the low into the high address word
+    case 2: return 0x1FF80 + r.below(0x60);           // the end of the array
+    case 3: return 0x10000 + r.below(0x8000);         // the second data page (only DMA and the host's A32 accessors get there)
+    case 4: return r.below(8);
+    default: return 0x2000 + r.below(0x40);
+    }
+}
+static DmaCfg make_dma_cfg(vh::Rng& r, const u32* hot, const u32* xhot) {
+    for (int tries = 0; tries < 400; ++tries) {
+        DmaCfg c;
+        unsigned m = r.below(20);
+        if (m < 6) { c.sp = 0; c.dp = 0; } else if (m < 11) { c.sp = 0; c.dp = 7; } else if (m < 16) { c.sp = 7; c.dp = 0; }
+        else if (m < 18) { c.sp = 7; c.dp = 7; }
+        else { static const u16 os[] = {1, 5, 2, 15, 0, 7}, od[] = {1, 5, 3, 8, 0, 7}; c.sp = os[r.below(6)]; c.dp = od[r.below(6)]; }
+        c.dw = r.chance(2, 5) ? 1 : 0;
+        unsigned shape = r.below(10);
+        if (shape < 4) { c.z[0] = dma_size(r, 34); c.z[1] = r.below(2); c.z[2] = r.below(2); }
+        else if (shape < 7) { c.z[0] = dma_size(r, 9); c.z[1] = dma_size(r, 6); c.z[2] = r.below(2); }
+        else { c.z[0] = dma_size(r, 5); c.z[1] = dma_size(r, 4); c.z[2] = dma_size(r, 3); }
+        if (dma_count(c) > 40) continue;
+        bool tame = tries > 60;
+        for (int i = 0; i < 3; ++i) { c.ss[i] = dma_step(r, tame); c.ds[i] = dma_step(r, tame); }
+        auto base = [&](u16 space) -> u32 {
+            if (space == 0) return (r.chance(5, 6) ? hot[r.below(3)] : dsp_spot(r)) + r.below(5);
+            if (space == 7) return (r.chance(5, 6) ? xhot[r.below(2)] : ext_spot(r)) + (r.chance(1, 2) ? r.below(9) : 4 * r.below(3));
+            return (u32)r.next();
+        };
+        c.sa = base(c.sp); c.da = base(c.dp);
+        if (c.sp == 0 && c.dp == 0 && r.chance(1, 2)) c.da = c.sa + r.below(7) - 3;          // overlapping ranges
+        if (c.sp == 7 && c.dp == 7 && r.chance(1, 2)) c.da = c.sa + (r.below(9) - 4) * (c.dw ? 4 : 2);
+        if (c.sp == 0 && !dsp_walk_ok(c, true)) continue;
+        if (c.dp == 0 && !dsp_walk_ok(c, false)) continue;
+        return c;
+    }
+    DmaCfg c; c.sa = hot[0]; c.da = hot[0] + 1; c.z[0] = 2; c.ss[0] = 1; c.ds[0] = 1;
+    return c;
+}
+
+// Programs the AHBM channels and several DMA channels through the MMIO window and starts transfers (DSP->DSP,
+// DSP->external, external->DSP, both external, the odd spaces; 16-bit and double-word elements, all three dimensions,
+// unaligned cursors, queue leftovers of one transfer met by the next); irq 15 is routed by the caller.
+static void emit_dma_body(Prog& p, vh::Rng& rng) {
+    u32 hot[3] = {0x2000 + rng.below(0x1000), dsp_spot(rng), dsp_spot(rng)};
+    u32 xhot[2] = {ext_spot(rng), ext_spot(rng)};
+    p.ext_hot = {xhot[0], xhot[1]};
+    for (unsigned k = 0, n = 3 + rng.below(4); k < n; ++k) p.data_store((u16)(hot[0] + rng.below(8)), rng.u16());   // something to move
+    unsigned nt = 2 + rng.below(4);
+    std::vector<DmaCfg> cfgs; std::vector<int> dcs;
+    DmaCfg cur[8]; bool used[8] = {false};
+    for (unsigned t = 0; t < nt; ++t) {
+        int dc = (t && rng.chance(1, 3)) ? dcs[rng.below(t)] : (int)rng.below(8);
+        DmaCfg c;
+        bool got = false;
+        if (used[dc] && rng.chance(1, 2)) {       // the channel as it is, one thing changed
+            for (int tries = 0; tries < 20 && !got; ++tries) {
+                c = cur[dc];
+                switch (rng.below(5)) {
+                case 0: c.z[rng.below(3)] = dma_size(rng, 6); break;
+                case 1: c.dw ^= 1; break;
+                case 2: c.ss[rng.below(3)] = dma_step(rng, true); break;
+                case 3: c.ds[rng.below(3)] = dma_step(rng, true); break;
+                default: break;                   // restart as it is
+                }
+                got = dma_count(c) <= 40 && (c.sp != 0 || dsp_walk_ok(c, true)) && (c.dp != 0 || dsp_walk_ok(c, false));
+            }
+        }
+        if (!got) c = make_dma_cfg(rng, hot, xhot);
+        cur[dc] = c; used[dc] = true;
+        cfgs.push_back(c); dcs.push_back(dc);
+    }
+    auto ahbm_cfg = [&](int i) {
+        u16 unit = rng.chance(1, 12) ? 3 : rng.below(3), burst = rng.chance(1, 12) ? 3 : (rng.chance(1, 2) ? 0 : rng.below(3));
+        u16 mask = rng.chance(2, 3) ? (u16)((1u << dcs[rng.below(nt)]) | (rng.chance(1, 2) ? (1u << rng.below(8)) : 0)) : rng.u16();
+        p.mmio_write(0xE2 + 6 * i, (u16)((burst << 1) | (unit << 4) | (rng.u16() & 0xFFC9)));    // the other bits are only stored
+        p.mmio_write(0xE4 + 6 * i, (u16)((rng.below(2) << 8) | (rng.u16() & 0xFEFF)));
+        p.mmio_write(0xE6 + 6 * i, mask);
+    };
+    for (int i = 0; i < 3; ++i) if (rng.chance(3, 4)) ahbm_cfg(i);
+    p.mmio_read_to_r(0xE0, 4);                  // "wait" for the bridge
+    static const u16 peek[] = {0xE0, 0xE2, 0xE4, 0xE6, 0xE8, 0xEA, 0xEC, 0xEE, 0xF0, 0xF2, 0x184, 0x18C, 0x1BE, 0x1C0, 0x1C2, 0x1C4, 0x1C6,
+                               0x1C8, 0x1CA, 0x1CC, 0x1CE, 0x1D0, 0x1D2, 0x1D4, 0x1D6, 0x1D8, 0x1DA, 0x1DC, 0x1DE, 0xE1, 0x1DF, 0x186};
+    u32 top = p.at;
+    bool loop = rng.chance(1, 2);               // run the whole sequence again and again (on what the last pass left) or once
+    DmaCfg reg[8];                              // what the channel registers hold (as far as this program knows)
+    bool seen[8] = {false};
+    for (unsigned t = 0; t < nt; ++t) {
+        const DmaCfg& c = cfgs[t];
+        int dc = dcs[t];
+        p.mmio_write(0x1BE, (u16)(dc | (rng.chance(1, 4) ? (rng.u16() & 0xFFF8) : 0)));        // CHANNEL is a 3-bit field
+        // every register, or only those that change (a looping program writes all of them at the first use of a
+        // channel: the second pass finds the channel as its last use left it)
+        bool all = rng.chance(1, 3) || (loop && !seen[dc]);
+        seen[dc] = true;
+        DmaCfg& o = reg[dc];
+        auto put = [&](u16 off, u16 v, u16 old) { if (all || v != old) p.mmio_write(off, v); };
+        put(0x1C0, c.sa & 0xFFFF, o.sa & 0xFFFF); put(0x1C2, c.sa >> 16, o.sa >> 16);
+        put(0x1C4, c.da & 0xFFFF, o.da & 0xFFFF); put(0x1C6, c.da >> 16, o.da >> 16);
+        put(0x1C8, c.z[0], o.z[0]); put(0x1CA, c.z[1], o.z[1]); put(0x1CC, c.z[2], o.z[2]);
+        put(0x1CE, c.ss[0], o.ss[0]); put(0x1D0, c.ds[0], o.ds[0]); put(0x1D2, c.ss[1], o.ss[1]);
+        put(0x1D4, c.ds[1], o.ds[1]); put(0x1D6, c.ss[2], o.ss[2]); put(0x1D8, c.ds[2], o.ds[2]);
+        if (all || c.sp != o.sp || c.dp != o.dp || c.dw != o.dw || rng.chance(1, 4))
+            p.mmio_write(0x1DA, (u16)(c.sp | (c.dp << 4) | (c.dw << 10) | (rng.u16() & 0xFB00)));   // the other bits are only stored
+        o = c;
+        if (rng.chance(1, 3)) p.mmio_write(0x184, rng.chance(1, 2) ? (u16)(1u << dc) : rng.u16());
+        if (rng.chance(1, 4)) p.mmio_write(0x1DC, rng.u16());
+        if (rng.chance(1, 4)) p.mmio_write(0x202, 0x8000);
+        if (rng.chance(1, 6)) p.mmio_write(0x1DE, rng.chance(1, 2) ? 0x40C1 : (u16)(rng.u16() & 0xBFFF));   // not the start pattern
+        p.mmio_write(0x1DE, 0x40C0);            // runs the whole transfer
+        for (unsigned k = 0, n = rng.below(3); k < n; ++k) p.mmio_read_to_r(peek[rng.below(sizeof(peek) / sizeof(peek[0]))], 4 + rng.below(2));
+        if (c.dp == 0 && c.da >= 0x2000 && c.da < 0x3FF0 && rng.chance(2, 3)) p.data_load((u16)(c.da + rng.below(3)), 4 + rng.below(2));
+        if (rng.chance(1, 5)) ahbm_cfg(rng.below(3));
+    }
+    p.inc(0);
+    if (loop) p.br(top); else p.brr(-1);
+}
+
 // a random program exercising interrupts, timers, the ICU, idle loops, calls and hardware loops
 static Prog make_program(vh::Rng& rng, std::string& descr, bool io, int force_kind = -1) {
     Prog p;
@@ -91,6 +275,8 @@ static Prog make_program(vh::Rng& rng, std::string& descr, bool io, int force_ki
     static const u16 bases[] = {0x4000, 0xF800, 0x0800, 0xE000, 0xF000, 0xFC00};
     u16 newbase = (io && rng.chance(1, 3)) ? bases[rng.below(6)] : 0x8000;
     p.mbase = newbase;
+    // kind 10 = DMA: decided here because the handlers and the interrupt set-up below know about irq 15 for it
+    const bool dmak = force_kind == 10 || (force_kind < 0 && io && rng.chance(1, 5));
     p.org(0); p.br(MAIN);
     for (int i = 0; i < 3; ++i) {
         p.org(0x0006 + 8 * i);
@@ -108,7 +294,7 @@ static Prog make_program(vh::Rng& rng, std::string& descr, bool io, int force_ki
             }
             if (rng.chance(1, 3)) p.mmio_write(0xCC, 1u << rng.below(16));
             if (rng.chance(1, 3)) p.mmio_write(0x2C6 + (rng.chance(1, 6) ? 0x80 : 0), rng.u16());
-            if (rng.chance(1, 3)) p.mmio_write(0x202, (1u << 14) | (1u << 11));
+            if (rng.chance(1, 3)) p.mmio_write(0x202, (1u << 14) | (1u << 11) | (dmak && rng.chance(1, 2) ? 0x8000u : 0u));
         }
         use_ctx[i] ? p.retic() : p.reti();
     }
@@ -127,7 +313,9 @@ static Prog make_program(vh::Rng& rng, std::string& descr, bool io, int force_ki
     if (newbase != 0x8000) { p.mbase = 0x8000; p.mmio_write(0x11E, newbase); p.mbase = newbase; }
     // ICU routing: which irq goes to which line
     u16 en[3] = {0, 0, 0}, ven = 0;
-    for (unsigned irq : {10u, 9u, 14u, 3u, 11u}) {
+    std::vector<unsigned> irqs = {10u, 9u, 14u, 3u, 11u};
+    if (dmak) irqs.push_back(15u);
+    for (unsigned irq : irqs) {
         unsigned c = rng.below(6);
         if (c < 3) en[c] |= 1u << irq;
         else if (c == 3) ven |= 1u << irq;
@@ -135,7 +323,7 @@ static Prog make_program(vh::Rng& rng, std::string& descr, bool io, int force_ki
     }
     for (int i = 0; i < 3; ++i) p.mmio_write(0x206 + 2 * i, en[i]);
     p.mmio_write(0x20C, ven);
-    for (unsigned irq : {10u, 9u, 14u, 3u, 11u}) {
+    for (unsigned irq : irqs) {
         p.mmio_write(0x212 + 4 * irq, (VEC >> 16) | (vctx ? 0x8000 : 0));
         p.mmio_write(0x214 + 4 * irq, VEC & 0xFFFF);
     }
@@ -154,7 +342,9 @@ static Prog make_program(vh::Rng& rng, std::string& descr, bool io, int force_ki
     if (io) {   // audio ports and mailbox configuration
         for (int i = 0; i < 2; ++i) {
             if (rng.chance(1, i ? 4 : 1)) p.mmio_write(0x2BE + 0x80 * i, rng.chance(1, 4) ? 0x8000 : 1);
-            for (unsigned k = 0, n = rng.below(i ? 3 : 20); k < n; ++k) p.mmio_write(0x2C6 + 0x80 * i, rng.u16());
+            // port 0: exactly full (16 words), over-full and partly filled queues all occur often
+            for (unsigned k = 0, n = i ? rng.below(3) : rng.chance(1, 3) ? 16 : rng.chance(1, 5) ? 17 + rng.below(3) : rng.below(16); k < n; ++k)
+                p.mmio_write(0x2C6 + 0x80 * i, rng.u16());
             if (rng.chance(1, 4)) p.mmio_write(0x2A2 + 0x80 * i, rng.u16());
             if (rng.chance(1, 4)) p.mmio_write(0x2C2 + 0x80 * i, rng.u16());
         }
@@ -169,7 +359,7 @@ static Prog make_program(vh::Rng& rng, std::string& descr, bool io, int force_ki
     p.mov_imm_sttmod(mod3, 7);
     if (rng.chance(1, 3)) p.mmio_write(0x204, 1u << 3);         // software trigger
     // body
-    unsigned kind = force_kind >= 0 ? (unsigned)force_kind : io ? 6 + rng.below(4) : rng.below(6);
+    unsigned kind = force_kind >= 0 ? (unsigned)force_kind : dmak ? 10 : io ? 6 + rng.below(4) : rng.below(6);
     descr = "kind" + std::to_string(kind);
     switch (kind) {
     case 0: // pure idle
@@ -259,6 +449,10 @@ static Prog make_program(vh::Rng& rng, std::string& descr, bool io, int force_ki
         p.brr(-1);
         break;
     }
+    case 10: // DMA transfers and the AHB bridge (the body is long: it lives behind the vectors)
+        p.br(0x0500); p.org(0x0500);
+        emit_dma_body(p, rng);
+        break;
     default: // software-triggered interrupts in a loop
         p.mmio_write(0x204, 1u << (rng.chance(1, 2) ? 3 : 14));
         p.inc(0);
@@ -313,6 +507,7 @@ struct Inst {
     std::unique_ptr<Teakra::Teakra> t;
     WriteLog log;
     std::vector<std::array<int, 3>> ev;   // host callbacks since the last observation, in order
+    ExtMem x;                             // external memory behind the AHBM callbacks
     auto& impl() { return *TeakraVerifAccess::impl(*t); }
     auto& interp() { return TeakraVerifAccess::interpreter(*TeakraVerifAccess::impl(TeakraVerifAccess::processor(impl()))); }
 };
@@ -384,6 +579,41 @@ static void observe_io(vh::Out& o, Inst& in, std::vector<std::array<int, 3>>& ev
     for (size_t i = 0; i < ev.size(); ++i) { if (i) e += ','; e += vh::arr(ev[i].begin(), ev[i].end()); }
     o.raw("ev", e + "]");
     ev.clear();
+    // DMA engine and AHB bridge (private state through the friend accessor), external accesses since the last observation
+    Dma& d = in.impl().dma;
+    std::string ds = "{\"en\":" + std::to_string(TeakraVerifAccess::enable_channel(d)) + ",\"act\":" + std::to_string(TeakraVerifAccess::active_channel(d)) + ",\"ch\":[";
+    for (int i = 0; i < 8; ++i) {
+        auto& c = TeakraVerifAccess::channels(d)[i];
+        long long v[27] = {c.addr_src_high, c.addr_src_low, c.addr_dst_high, c.addr_dst_low, c.size0, c.size1, c.size2,
+                           c.src_step0, c.src_step1, c.src_step2, c.dst_step0, c.dst_step1, c.dst_step2, c.src_space, c.dst_space,
+                           c.dword_mode, c.y, c.z, c.current_src >> 16, c.current_src & 0xFFFF, c.current_dst >> 16, c.current_dst & 0xFFFF,
+                           c.counter0, c.counter1, c.counter2, c.running, c.ahbm_channel};
+        if (i) ds += ',';
+        ds += vh::arr(v, v + 27);
+    }
+    o.raw("dma", ds + "]}");
+    Ahbm& ah = in.impl().ahbm;
+    std::string as = "{\"busy\":" + std::to_string(TeakraVerifAccess::busy_flag(ah)) + ",\"ch\":[";
+    for (int i = 0; i < 3; ++i) {
+        auto& c = TeakraVerifAccess::channels(ah)[i];
+        if (i) as += ',';
+        as += "[" + std::to_string((int)c.unit_size) + "," + std::to_string((int)c.burst_size) + "," + std::to_string((int)c.direction) + "," +
+              std::to_string(c.dma_channel) + ",[";
+        auto q = c.burst_queue;   // copy
+        bool first = true;
+        while (!q.empty()) { if (!first) as += ','; first = false; as += vh::pair16(q.front()); q.pop(); }
+        as += "]," + vh::pair16(c.write_burst_start) + "]";
+    }
+    o.raw("ah", as + "]}");
+    std::string xs = "[";
+    for (size_t i = 0; i < in.x.xa.size(); ++i) {
+        auto& a = in.x.xa[i];
+        if (i) xs += ',';
+        xs += "[" + std::to_string(a[0]) + "," + std::to_string(a[1] >> 16) + "," + std::to_string(a[1] & 0xFFFF) + "," +
+              std::to_string(a[2] >> 16) + "," + std::to_string(a[2] & 0xFFFF) + "]";
+    }
+    o.raw("xa", xs + "]");
+    in.x.xa.clear();
 }
 
 static void fresh(Inst& in) {
@@ -393,6 +623,13 @@ static void fresh(Inst& in) {
     in.t->SetAudioCallback([ev](std::array<s16, 2> f) { ev->push_back({0, (int)(u16)f[0], (int)(u16)f[1]}); });
     for (int c = 0; c < 3; ++c) in.t->SetRecvDataHandler(c, [ev, c] { ev->push_back({1, c, 0}); });
     in.t->SetSemaphoreHandler([ev] { ev->push_back({2, 0, 0}); });
+    ExtMem* x = &in.x;
+    x->mem.clear(); x->xa.clear();
+    Teakra::AHBMCallback cb;
+    cb.read8 = [x](u32 a) { return x->r8(a); };   cb.write8 = [x](u32 a, u8 v) { x->w8(a, v); };
+    cb.read16 = [x](u32 a) { return x->r16(a); }; cb.write16 = [x](u32 a, u16 v) { x->w16(a, v); };
+    cb.read32 = [x](u32 a) { return x->r32(a); }; cb.write32 = [x](u32 a, u32 v) { x->w32(a, v); };
+    in.t->SetAHBMCallback(cb);
     in.t->Reset();
     in.ev.clear();
     // the ICU has no reset and its vector tables no initialiser: give the run a defined start and let the
@@ -412,13 +649,15 @@ int main(int argc, char** argv) {
     long programs = a.n;
     for (long pi = 0; pi < programs; ++pi) {
         std::string descr;
-        bool io = a.mode == "io" || a.mode == "page" || (a.mode != "loops" && rng.chance(1, 3));
-        Prog prog = a.mode == "loops" ? make_loop_program(rng, descr) : make_program(rng, descr, io, a.mode == "page" ? 9 : -1);
+        bool io = a.mode == "io" || a.mode == "page" || a.mode == "dma" || a.mode == "audio" || (a.mode != "loops" && rng.chance(1, 3));
+        Prog prog = a.mode == "loops" ? make_loop_program(rng, descr) : make_program(rng, descr, io, a.mode == "page" ? 9 : a.mode == "dma" ? 10 : a.mode == "audio" ? (rng.chance(2, 3) ? 7 : 6) : -1);
+        const bool dmaprog = descr == "kind10";
         // the audio transmit period has no register (4096 cycles after reset): shorten it so that frames, the
         // empty interrupt and queue refills happen within the budget; the New line carries the value
         unsigned period[2] = {io ? (rng.chance(1, 8) ? 4096u : 2 + rng.below(60)) : 4096u, io ? 1 + rng.below(40) : 4096u};
         u64 host_seed = rng.next();
         unsigned total = rng.chance(1, 5) ? 300 + rng.below(3000) : 60 + rng.below(400);
+        if (dmaprog) total = 300 + rng.below(500);     // the set-up alone takes a few hundred instructions
         // slicings: one piece, single steps for a prefix then the rest, random slices, twos/threes
         std::vector<std::vector<unsigned>> slicings;
         slicings.push_back({total});
@@ -470,26 +709,52 @@ int main(int argc, char** argv) {
                                                 "SetSemaphore", "SetSemaphore", "ClearSemaphore", "MaskSemaphore", "GetSemaphore", "PeekRecvData",
                                                 "DataWrite", "DataRead", "DataWriteBypass", "DataReadBypass", "DataWriteA32", "DataReadA32",
                                                 "ProgramWrite", "ProgramRead", "MMIOWrite", "MMIORead", "DataWrite", "DataRead"};
-                    // registers the host pokes: timers, ICU, MIU, mailboxes, audio ports, plain cells (none of the unmodelled AHBM/DMA ones)
+                    // the AHBM / DMA part of the host API, and the AHBM / DMA registers (incl. the plain cells between them)
+                    static const char* dops[] = {"AHBMRead16", "AHBMRead32", "AHBMWrite16", "AHBMWrite32", "AHBMRead16", "AHBMWrite32", "AHBMGetUnitSize",
+                                                 "AHBMGetDirection", "AHBMGetDmaChannel", "DMAChan0GetSrcHigh", "DMAChan0GetDstHigh",
+                                                 "MMIOWrite", "MMIOWrite", "MMIORead", "MMIORead", "DataWrite", "DataRead"};
+                    static const u16 doffs[] = {0xE0, 0xE2, 0xE4, 0xE6, 0xE8, 0xEA, 0xEC, 0xEE, 0xF0, 0xF2, 0xE1, 0xF3, 0x184, 0x18C, 0x1BE, 0x1C8, 0x1CA,
+                                                0x1CC, 0x1CE, 0x1D0, 0x1D4, 0x1D8, 0x1DA, 0x1DC, 0x1DE, 0x1DE, 0x1DF, 0x1C2, 0x1C6, 0x186};
+                    bool dmaop = hrng.chance(dmaprog ? 3 : 1, dmaprog ? 5 : 12);
+                    // registers the host pokes: timers, ICU, MIU, mailboxes, audio ports, plain cells
                     static const u16 offs[] = {0x20, 0x22, 0x24, 0x26, 0x28, 0x2A, 0x30, 0x34, 0x38, 0x1A, 0x200, 0x202, 0x204, 0x206, 0x208, 0x20A, 0x20C,
                                                0x212, 0x214, 0x23A, 0x23C, 0x10E, 0x110, 0x112, 0x114, 0x116, 0x11A, 0xC0, 0xC2, 0xC4, 0xC6, 0xC8, 0xCA,
                                                0xCC, 0xCE, 0xD0, 0xD2, 0xD4, 0xD6, 0xD8, 0x2A2, 0x2BE, 0x2C2, 0x2C6, 0x2CA, 0x322, 0x33E, 0x342, 0x346,
                                                0x34A, 0x00, 0x02, 0x101, 0x7FE, 0x7FF, 0x300};
-                    auto moff = [&]() -> u16 { return offs[hrng.below(sizeof(offs) / sizeof(offs[0]))]; };
+                    auto moff = [&]() -> u16 { return dmaop ? doffs[hrng.below(sizeof(doffs) / sizeof(doffs[0]))] : offs[hrng.below(sizeof(offs) / sizeof(offs[0]))]; };
                     auto mval = [&](u16 off) -> u16 {   // values that keep the machine alive most of the time
                         if (off == 0x10E || off == 0x110 || off == 0x112) return hrng.chance(1, 12) ? 2 : hrng.below(2);
                         if (off == 0x20 || off == 0x30) return (hrng.below(4) << 2) | (hrng.u16() & 0x700);
+                        // DMA: the channel select keeps the channel (only the bits above the 3-bit field vary), sizes and steps
+                        // stay small, the address registers are read only (whatever the guest set up stays inside the array),
+                        // the spaces keep their values or become one of the spaces that move nothing
+                        Dma& d = in.impl().dma;
+                        auto& dc = TeakraVerifAccess::channels(d)[TeakraVerifAccess::active_channel(d)];
+                        if (off == 0x1BE) return (u16)(TeakraVerifAccess::active_channel(d) | (hrng.u16() & 0xFFF8));
+                        if (off == 0x1C8 || off == 0x1CA || off == 0x1CC) return hrng.below(4);
+                        if (off >= 0x1CE && off <= 0x1D8) return hrng.below(3);
+                        if (off == 0x1C2) return dc.addr_src_high;
+                        if (off == 0x1C6) return dc.addr_dst_high;
+                        if (off == 0x1DA) { u16 sp = hrng.chance(1, 6) ? 1 : dc.src_space, dp = hrng.chance(1, 6) ? 5 : dc.dst_space;
+                                            return (u16)(sp | (dp << 4) | (hrng.below(2) << 10) | (hrng.u16() & 0xFB00)); }
+                        if (off == 0x1DE) return hrng.chance(1, 2) ? 0x40C0 : hrng.u16();
                         return hrng.u16();
                     };
                     const MemoryInterfaceUnit& mu = in.impl().miu;
-                    // (registers of the peripherals System.tla does not model -- AHBM 0xE0.., DMA 0x184, 0x18C, 0x1BE.. -- are left alone)
-                    auto unmodelled = [&](u16 a) { if (!mu.InMMIO(a)) return false; u16 off = (a - mu.mmio_base) & 0x7FF;
-                                                   return (off >= 0xE0 && off <= 0xF3) || off == 0x184 || off == 0x18C || (off >= 0x1BE && off <= 0x1DF); };
-                    auto daddr = [&]() -> u16 { u16 a = hrng.chance(1, 2) ? (u16)(mu.mmio_base + moff()) : hrng.chance(1, 2) ? (u16)(mu.x_size[0] * 0x400 + hrng.below(3) - 1) : hrng.u16();
-                                                return unmodelled(a) ? (u16)(mu.mmio_base + 0x300 + (a & 0xF)) : a; };
+                    // a random data address may fall on a DMA / AHBM register: the registers a random value would derail (addresses,
+                    // sizes, steps, spaces, start) are left to moff()/mval() above
+                    auto touchy = [&](u16 a) { if (!mu.InMMIO(a)) return false; u16 off = (a - mu.mmio_base) & 0x7FF;
+                                               return off == 0x1BE || (off >= 0x1C0 && off <= 0x1DF); };
+                    auto daddr = [&]() -> u16 { if (dmaop || hrng.chance(1, 2)) return (u16)(mu.mmio_base + moff());
+                                                u16 a = hrng.chance(1, 2) ? (u16)(mu.x_size[0] * 0x400 + hrng.below(3) - 1) : hrng.u16();
+                                                return touchy(a) ? (u16)(mu.mmio_base + 0x300 + (a & 0xF)) : a; };
+                    auto xaddr = [&]() -> u32 { if (!prog.ext_hot.empty() && hrng.chance(3, 4)) return prog.ext_hot[hrng.below(prog.ext_hot.size())] + hrng.below(14) - 3;
+                                                static const u32 e[] = {0, 1, 2, 3, 0xFFFFFFFF, 0xFFFFFFFE, 0xFFFFFFFC, 0x20000000, 0x7FFFFFFF, 0x80000001, 0xFFFF, 0x1FFFE};
+                                                return hrng.chance(2, 3) ? e[hrng.below(sizeof(e) / sizeof(e[0]))] : (u32)hrng.next(); };
                     const char* hout = "ok";
-                    std::string op = ops[hrng.below(sizeof(ops) / sizeof(ops[0]))];
+                    std::string op = dmaop ? dops[hrng.below(sizeof(dops) / sizeof(dops[0]))] : ops[hrng.below(sizeof(ops) / sizeof(ops[0]))];
                     unsigned ha = 0, hb = 0; long ret = 0;
+                    u32 xa = 0, xv = 0;               // AHBM accessors: 32-bit address / value, logged as [hi, lo]
                     in.log.written.clear();
                     if (op == "SendData") { ha = hrng.below(3); hb = hrng.u16(); in.t->SendData(ha, hb); }
                     else if (op == "RecvData") { ha = hrng.below(3); ret = in.t->RecvData(ha); }
@@ -500,6 +765,15 @@ int main(int argc, char** argv) {
                     else if (op == "MaskSemaphore") { ha = hrng.chance(1, 2) ? 0 : hrng.u16(); in.t->MaskSemaphore(ha); }
                     else if (op == "GetSemaphore") { ret = in.t->GetSemaphore(); }
                     else if (op == "PeekRecvData") { ha = hrng.below(3); ret = in.t->PeekRecvData(ha); }
+                    else if (op == "AHBMRead16") { xa = xaddr(); ret = in.t->AHBMRead16(xa); }
+                    else if (op == "AHBMRead32") { xa = xaddr(); ret = in.t->AHBMRead32(xa); }
+                    else if (op == "AHBMWrite16") { xa = xaddr(); hb = hrng.u16(); in.t->AHBMWrite16(xa, (u16)hb); }
+                    else if (op == "AHBMWrite32") { xa = xaddr(); xv = (u32)hrng.next(); in.t->AHBMWrite32(xa, xv); }
+                    else if (op == "AHBMGetUnitSize") { ha = hrng.below(3); ret = in.t->AHBMGetUnitSize(ha); }
+                    else if (op == "AHBMGetDirection") { ha = hrng.below(3); ret = in.t->AHBMGetDirection(ha); }
+                    else if (op == "AHBMGetDmaChannel") { ha = hrng.below(3); ret = in.t->AHBMGetDmaChannel(ha); }
+                    else if (op == "DMAChan0GetSrcHigh") { ret = in.t->DMAChan0GetSrcHigh(); }
+                    else if (op == "DMAChan0GetDstHigh") { ret = in.t->DMAChan0GetDstHigh(); }
                     else try {
                         if (op == "DataWrite") { ha = daddr(); hb = mval((u16)(ha - mu.mmio_base)); in.t->DataWrite(ha, hb); }
                         else if (op == "DataRead") { ha = daddr(); ret = in.t->DataRead(ha); }
@@ -513,7 +787,12 @@ int main(int argc, char** argv) {
                         else if (op == "MMIORead") { ha = moff() + (hrng.chance(1, 4) ? 0x800 * hrng.below(31) : 0); ret = in.t->MMIORead(ha); }
                     } catch (const TeakraVerifAssert&) { hout = "assert"; dead = true; }
                     if (in.log.oob) { hout = "oob"; dead = true; }
-                    o.begin(); o.str("e", "Host"); o.str("op", op.c_str()); o.num("a", ha); o.num("b", hb); o.num("ret", ret);
+                    o.begin(); o.str("e", "Host"); o.str("op", op.c_str());
+                    if (op.compare(0, 6, "AHBMRe") == 0 || op.compare(0, 6, "AHBMWr") == 0) {
+                        o.raw("a", vh::pair16(xa));
+                        if (op == "AHBMWrite32") o.raw("b", vh::pair16(xv)); else o.num("b", hb);
+                    } else { o.num("a", ha); o.num("b", hb); }
+                    o.num("ret", ret);
                     observe(o, in); observe_io(o, in, in.ev);
                     std::string hw = "[";
                     bool f3 = true;
